@@ -12,6 +12,9 @@ import (
 
 var monitors = map[string]func(*vk.Ctx){
 	"C12": runC12,
+	"C14": runC14,
+	"C15": runC15,
+	"C16": runC16,
 }
 
 func main() {
